@@ -12,7 +12,14 @@ import (
 	"golang.org/x/tools/go/ssa/ssautil"
 )
 
-const repoRoot = "/repo"
+// repoRoot is the tree under test: /repo for every registered command; VERIF_REPO points experiments
+// (seeded changes checked in a scratch worktree) at another copy.
+var repoRoot = func() string {
+	if v := os.Getenv("VERIF_REPO"); v != "" {
+		return v
+	}
+	return "/repo"
+}()
 
 var pkgDirs = map[string]string{
 	"main":     "",
